@@ -385,6 +385,15 @@ func (env *Env) GenLemma(sf *SpecFile, lm *Lemma) (res *FuncResult, err error) {
 			panic(r)
 		}
 	}()
+	// the definitions of opaque spec functions are available in lemma proofs
+	for _, osf := range env.Specs {
+		for _, dl := range osf.Lemmas {
+			if dl.Definition {
+				dcx := &SpecCtx{g: g, st: st, old: st, vars: map[string]sval{}, pkg: pkg, spec: osf}
+				g.emit("(assert " + dcx.assumeTerm(dl.Body) + ")")
+			}
+		}
+	}
 	if lm.ByLean {
 		src, lerr := leanTheorem(lm)
 		if lerr != nil {
